@@ -135,6 +135,34 @@ def timers_scheduled(cx, iid):
                     if g:
                         arms.add(arm)
                         inst.site(he, loc, "timer expiry in %s -> Fin" % arm)
+        # a retry that was sent is followed by re-queueing its timer (otherwise the chain stops and the entry lingers)
+        resends = [(l, "resend") for l, lab in call_sites(he, "UdpSocket::send_to")]
+        requeue = [l for l, t in he.calls("BinaryHeap::push") if show(he.call_expr(t)) == "BinaryHeap::push(arg1.client_events,arg2)"]
+        for l in requeue:
+            inst.site(he, l, "timer re-queued")
+        cx.followed_by(inst, he, resends, requeue, "retry sent without re-queueing its timer", "client_events.push(event)")
+        # every timer taken off the queue is handled
+        hes = R.body("server::Server::handle_events")
+        pops = [(l, "pop") for l, t in hes.calls("BinaryHeap::pop") if show(hes.operand_expr(t["args"][0])) == "arg1.client_events"]
+        handles = [l for l, t in hes.calls("Server::handle_event") if "BinaryHeap::pop(arg1.client_events)" in show(hes.call_expr(t))]
+        cx.followed_by(inst, hes, pops, handles, "timer popped but not handled", "handle_event(popped event)")
+        # ... on every path of the exhausted-budget branch (not only when error reporting is enabled)
+        fa2 = cx.fa(he)
+        fins = [l for l, s2 in he.assigns() if s2["pl"]["p"] and show(he.place_expr(s2["pl"])).endswith(".state") and show(he.rvalue_expr(s2["rv"])).startswith("State::Fin")]
+        rems = call_locs(he, "HashMap::remove", r"arg1\.clients")
+        for (bb, y, lab), lits in fa2.edge_lits.items():
+            if any(re.fullmatch(r"eq\(0,arg2\.count\)", x) for x in lits):
+                alts = fa2.at(Loc(y, 0)) or []
+                arm = None
+                for a_ in ("Pending", "Closing"):
+                    if alts and all(any(re.fullmatch(r"is\(.*\.state,%s\)" % a_, x) for x in alt) for alt in alts):
+                        arm = a_
+                if arm:
+                    inst.site(he, Loc(y, 0), "retry budget exhausted in %s" % arm)
+                    for what, blk in (("state = Fin", fins), ("clients.remove", rems)):
+                        w = he.reach_exit_avoiding(Loc(y, -1), blk)
+                        if w is not None:
+                            inst.violation(he.path, "expiry without " + what, "when the %s retry budget is exhausted the handler can return without `%s`: the entry is never forgotten (its nonce stays valid and its slot stays taken)" % (arm, what), detail={"offending_path": he.path_spans(w)[:12]})
         if arms != {"Pending", "Closing", "Closed"}:
             inst.violation(he.path, "timer expiry -> Fin", "not every timer expiry forgets its client (found Fin in arms %s)" % sorted(arms))
 
@@ -151,6 +179,8 @@ def run(cx):
     removal_implies_fin(cx, "C17.e")
     from props.shared import heap_order
     heap_order(cx, "C17.f", ["event"])
+    from props.shared import active_timeout_sweep
+    active_timeout_sweep(cx, "C17.g")
 
 
 SELFTEST = [
